@@ -7,12 +7,121 @@ RULES = {
               '(filtered by state Infeasible / queued under a fresh Infeasible state / false outcome of explore for the child just inserted), '
               'a decision is skipped only with one survivor and all other K-1 branches so justified',
     'C03.R2': 'Infeasible verdicts originate only in the PolytopeStatus::Infeasible arm; is_edge_feasible returns false only there or on a cached Infeasible; explore impls are const true or is_edge_feasible(parent, child)',
+    'C03.R3': 'the LP question is the closed path polytope of the node/edge in question, encoded as min c^T x s.t. A x <= b with free variables; status() uses the zero objective',
+    'C03.R4': 'skip_subtree only under an Infeasible state of a non-root node',
     'C03.R5': 'a removal must not leave a decision without children (shared with C04.R3)',
 }
-FLOORS = {'C03.R1': 9, 'C03.R2': 11, 'C03.R5': 5}
+FLOORS = {'C03.R1': 9, 'C03.R2': 11, 'C03.R3': 5, 'C03.R4': 2, 'C03.R5': 5}
 EXPLANATION = ('A path can disappear only after the LP back-end answered "infeasible" about exactly that path; '
                'decided structurally on every removal site, for all trees and inputs.')
 DOES_NOT_DECIDE = 'whether the LP answer is right (C10), tolerance effects'
+
+
+def r3_lp_question(ctx):
+    """The LP asked is the closed path polytope of exactly the node/edge in question, encoded as min c^T x s.t. Ax <= b, x free."""
+    from ..mir import Callee, Resolver, fmt, literals, walk, strip_sites as s
+    from .prune import is_call
+    F = ctx.facts
+    # (a) is_edge_feasible: path = path_to_node(parent) ++ (parent, label of the edge parent->node)
+    b = ctx.body('C03.R3', 'AffTree::is_edge_feasible')
+    if b is not None:
+        R = Resolver(b)
+        pc = [(bb, R.call_args(bb)) for bb, t in b.calls_to('AffTree::polyhedral_path_characterization')]
+        pushes = [(bb, R.call_args(bb)) for bb, t in b.calls_to('Vec::push')]
+        ok = False
+        if len(pc) == 1:
+            path = pc[0][1][1]
+            base = is_call(path, 'Tree::path_to_node') and path[2][1] == ('param', 'parent_idx')
+            ext = [p for p in pushes if s(p[1][0]) == s(path)]
+            if base and len(ext) == 1:
+                v = ext[0][1][1]
+                ok = v[0] == 'agg' and v[1] == 'tuple' and v[2][0] == ('param', 'parent_idx') and v[2][1][0] == 'field' and v[2][1][2] == 'label' and \
+                    is_call(v[2][1][1], 'Tree::parent') and v[2][1][1][2][1] == ('param', 'node_idx') and b.cfg().dominates(ext[0][0], pc[0][0])
+        (ctx.ok if ok else ctx.bad)('C03.R3', 'AffTree::is_edge_feasible#path', 'polytope of path_to_node(parent) extended by (parent, label of the edge to node)' if ok else
+                                    'the polytope tested is not the path to the parent extended by the edge to the node in question', b.span)
+    # (b) polyhedral_path_characterization intersects exactly the half-spaces it pushed
+    b = ctx.body('C03.R3', 'AffTree::polyhedral_path_characterization')
+    if b is not None:
+        R = Resolver(b)
+        inter = [(bb, R.call_args(bb)) for bb, t in b.calls_to('AffFuncBase::intersection_n')]
+        pushes = [(bb, R.call_args(bb)) for bb, t in b.calls_to('Vec::push')]
+        ok = len(inter) == 1 and len(pushes) == 1 and s(inter[0][1][1]) == s(pushes[0][1][0]) and is_call(inter[0][1][0], 'AffTree::in_dim')
+        rets = [e for _, e in R.return_expr()]
+        ok = ok and len(rets) == 1 and is_call(rets[0], 'AffFuncBase::intersection_n')
+        # every path entry contributes: the push is unconditional in the loop over `path`
+        if ok:
+            lits = [l for l in literals(b, R, pushes[0][0]) if not (l[0] == 'is' and is_call(l[1], 'Iterator::next')) and not (l[0] == 'false' and l[1][0] == 'field' and l[1][2] == 'isleaf') and l[0] != 'eq']
+            ok = not lits
+        (ctx.ok if ok else ctx.bad)('C03.R3', 'AffTree::polyhedral_path_characterization#intersection', 'returns intersection_n(in_dim, one half-space per path entry)' if ok else
+                                    'the path polytope does not intersect one half-space per path entry', b.span)
+    # (c) LP encoding
+    b = ctx.body('C03.R3', 'AffFuncBase::as_linprog')
+    if b is not None:
+        R = Resolver(b)
+        new = [(bb, R.call_args(bb)) for bb, t in b.calls_to('Problem::new')]
+        ac = [(bb, R.call_args(bb), literals(b, R, bb)) for bb, t in b.calls_to('Problem::add_constraint')]
+        problems = []
+        if not (len(new) == 1 and new[0][1][0] == ('agg', ('adt', 'OptimizationDirection', 'Minimize', ()), ())):
+            problems.append('objective sense is not Minimize')
+        free = False
+        for cb in b.closure_bodies():
+            for _, e in Resolver(cb).return_expr():
+                if is_call(e, 'Problem::add_var'):
+                    free = e[2][2] == ('agg', 'tuple', (('const', '-inf'), ('const', 'inf'))) and e[2][1][0] == 'param'
+        if not free:
+            problems.append('variables are not free (bounds must be (-inf, +inf)) with the cost coefficient of their own position')
+        if len(ac) != 1:
+            problems.append('expected one add_constraint per row')
+        else:
+            a = ac[0][1]
+            row_item = [x for x in walk(a[3]) if is_call(x, 'Iterator::next')]
+            okc = a[2] == ('agg', ('adt', 'ComparisonOp', 'Le', ()), ()) and a[3][0] == 'field' and a[3][2] == '1' and row_item and \
+                is_call(row_item[0][2][0], 'zip') and is_call(row_item[0][2][0][2][0], 'ArrayBase::rows') and row_item[0][2][0][2][0][2][0] == ('field', ('param', 'self'), 'mat') \
+                and row_item[0][2][0][2][1] == ('field', ('param', 'self'), 'bias')
+            coeffs_ok = any(is_call(x, 'zip') and s(x[2][1]) == s(('field', row_item[0], '0')) for x in walk(a[1])) if row_item else False
+            uncond = all(l[0] == 'is' and is_call(l[1], 'Iterator::next') for l in ac[0][2])
+            if not (okc and coeffs_ok and uncond):
+                problems.append('constraints are not "row i · vars <= bias i" for every row (op=%s rhs/row=%s coeffs=%s unconditional=%s)' % (fmt(a[2]), okc, coeffs_ok, uncond))
+        if problems:
+            for p_ in problems:
+                ctx.bad('C03.R3', 'AffFuncBase::as_linprog#encoding', p_, b.span)
+        else:
+            ctx.ok('C03.R3', 'AffFuncBase::as_linprog#encoding', 'min c^T x  s.t.  A x <= b (one Le row per constraint, coefficients zipped with the variables in order), x free', b.span)
+    b = ctx.body('C03.R3', 'AffFuncBase::status')
+    if b is not None:
+        R = Resolver(b)
+        rets = [e for _, e in R.return_expr()]
+        ok = len(rets) == 1 and is_call(rets[0], 'AffFuncBase::solve_linprog') and rets[0][2][0] == ('param', 'self') and is_call(rets[0][2][1], 'ArrayBase::zeros')
+        (ctx.ok if ok else ctx.bad)('C03.R3', 'AffFuncBase::status#objective', 'feasibility = LP of self with the zero objective' if ok else 'status() does not solve self with a zero objective', b.span)
+    b = ctx.body('C03.R3', 'AffFuncBase::solve_linprog')
+    if b is not None:
+        R = Resolver(b)
+        al = [(bb, R.call_args(bb)) for bb, t in b.calls_to('AffFuncBase::as_linprog')]
+        ok = len(al) == 1 and al[0][1][0] == ('param', 'self') and al[0][1][1] == ('param', 'coeffs')
+        (ctx.ok if ok else ctx.bad)('C03.R3', 'AffFuncBase::solve_linprog#problem', 'solves as_linprog(self, coeffs)' if ok else 'solve_linprog does not solve the encoding of self with the given objective', b.span)
+
+
+def r4_skips(ctx):
+    """skip_subtree is only called for nodes whose state is Infeasible (fresh or cached): nothing else is left unclassified / the root is never pruned."""
+    from ..mir import Resolver, literals, fmt
+    from .prune import is_call
+    b = ctx.body('C03.R4', 'AffTree::infeasible_elimination')
+    if b is None:
+        return
+    R = Resolver(b)
+    n = 0
+    for bb, t in b.calls_to('PolyhedraGen::skip_subtree'):
+        n += 1
+        lits = literals(b, R, bb)
+        inf = [l for l in lits if l[0] == 'is' and l[2] == frozenset(['Infeasible'])]
+        notroot = any(l[0] == 'false' and l[1][0] == 'bin' and l[1][1] == 'Eq' and any(is_call(x, 'Tree::get_root_idx') for x in (l[1][2], l[1][3])) for l in lits)
+        site = 'AffTree::infeasible_elimination#skip_subtree:%s' % ('cached' if inf and inf[0][1][0] == 'field' else 'fresh')
+        if inf and notroot:
+            ctx.ok('C03.R4', site, 'subtree skipped only under an Infeasible state of a non-root node', t['span'])
+        else:
+            ctx.bad('C03.R4', site, 'a subtree is skipped (left unclassified and later removed with its parent edge) without an Infeasible state of a non-root node', t['span'])
+    if n == 0:
+        ctx.lost('C03.R4', 'skip_subtree calls')
 
 
 def run(ctx):
@@ -20,4 +129,6 @@ def run(ctx):
     prune.check_infeasible_provenance(ctx, 'C03.R2')
     prune.check_edge_feasible_table(ctx, 'C03.R2')
     prune.check_explore_impls(ctx, 'C03.R2')
+    r3_lp_question(ctx)
+    r4_skips(ctx)
     prune.check_childless(ctx, 'C03.R5')
